@@ -1,6 +1,7 @@
 package main
 
 import (
+	"go/constant"
 	"fmt"
 	"strings"
 
@@ -18,6 +19,8 @@ const (
 
 func init() {
 	register("C14",
+		Rule{ID: "C14.k", Explain: "the shared secret-key randomizer fits every key: wherever the library draws the randomizer that is filed under \"secretkey\" (it is shared by all proofs of a session and, with a keyshare server, added to the server's), its length is LmCommit of the smallest supported key size (1024) - one bit more (LsCommit) or the length of whichever key comes first makes the joint response exceed the verifier's bound for some sessions.",
+			Run: func(P *Program, R *Report) { secretKeyRandomizerRule(P, R, "C14.k") }},
 		Rule{ID: "C14.a", Explain: "KeyshareResponse returns a ProofP only if every element with a KeyID names a known key and the constant-time comparison of sha256(cbor(the WHOLE second-message challenge input)) with the committed hash succeeded; the comparison dominates the computation of the response.",
 			Run: func(P *Program, R *Report) { keyshareResponseGuards(P, R) }},
 		Rule{ID: "C14.b", Explain: "the server's challenge is createChallenge(Context or 1, Nonce, contribs, IsSignatureSession) where contribs is, per element in order, Value, then Commitment (times R0^randomizer mod N exactly when the key participates), then all OtherCommitments.",
@@ -849,4 +852,55 @@ func startsEmpty(v ssa.Value) bool {
 		return false
 	}
 	return walk(v)
+}
+
+// secretKeyRandomizerRule: see C14.k.
+func secretKeyRandomizerRule(P *Program, R *Report, rule string) {
+	n := 0
+	for _, fn := range P.AllFuncs {
+		if fn.Blocks == nil || !inModuleFn(fn) {
+			continue
+		}
+		allInstrs(fn, func(i ssa.Instruction) {
+			mu, ok := i.(*ssa.MapUpdate)
+			if !ok {
+				return
+			}
+			k, isC := mu.Key.(*ssa.Const)
+			if !isC || k.Value == nil || k.Value.Kind() != constant.String || constant.StringVal(k.Value) != "secretkey" {
+				return
+			}
+			c, _ := callAndResult(mu.Value)
+			if c == nil || !(isCallTo(c, "common.RandomBigInt") || isCallTo(c, "common.FastRandomBigInt")) {
+				return
+			}
+			// the randomizers of a session: the map is handed to the caller (a single proof's own map, as in
+			// CredentialBuilder.proveCommitment, is sized by that proof's key)
+			handedOut := false
+			for _, r := range returnsOf(fn) {
+				for k := 0; k < retCount(r); k++ {
+					rv := retValue(r, k)
+					if rv == mu.Map {
+						handedOut = true
+					}
+					if ph, isPhi := rv.(*ssa.Phi); isPhi {
+						for _, e := range ph.Edges {
+							if e == mu.Map {
+								handedOut = true
+							}
+						}
+					}
+				}
+			}
+			if !handedOut {
+				return
+			}
+			n++
+			d := desc(callArgs(c)[0])
+			ok = strings.Contains(d, "DefaultSystemParameters[1024]") && strings.HasSuffix(d, ".LmCommit")
+			R.seen(FuncKey(fn))
+			R.decide(rule, FuncKey(fn)+":secretkey-randomizer-length", "the randomizer filed under \"secretkey\" is drawn with LmCommit bits of the 1024-bit parameters", ok, "length: "+d, P.Pos(c.Pos()))
+		})
+	}
+	R.decide(rule, "sites:count", "a place where the shared secret-key randomizer is drawn was found (>= 1)", n >= 1, fmt.Sprintf("%d", n), "")
 }
